@@ -105,7 +105,7 @@ theorem swap_ok (p : Params) (hy : Hyp p) (e : Emit) (M : State) (hw : WF p e M)
     have := hgetv; unfold vloc at this; rw [hgv] at this; exact this
   have hgetla : M.get la = some ta := by
     have := hgeta; unfold vloc at this; rw [hag, hareg] at this; exact this
-  have hstep : step p.vis p.f.saOffSp p.f.saOffSa (spId p.cfg.arch) M ins = some M' := by
+  have hstep : step p.vis p.f p.cfg.arch M ins = some M' := by
     rw [hinsdef]
     unfold step
     simp only [hrt.2.2]
@@ -169,7 +169,7 @@ theorem swap_ok (p : Params) (hy : Hyp p) (e : Emit) (M : State) (hw : WF p e M)
       rw [w_setW_eq _ _ _ (by simp [hwl, hglt])]
       simp [WorkData.swap, hpl]
     · rw [w_setW_ne _ _ _ _ (fun h => hgg h.symm)]; exact hw.physlen g' hg'
-  · exact run_push _ _ _ _ _ _ _ _ _ hw.runs hstep
+  · exact run_push _ _ _ _ _ _ _ _ hw.runs hstep
   · intro j hj
     show VarOK p c' M' j (c'.var j)
     by_cases hji : j = i
